@@ -58,9 +58,12 @@ Fixpoint run (keep : bool) (zero : Qc) (s : st) (ops : list op) : list out :=
   | o :: r => let '(s', x) := step keep zero s o in x :: run keep zero s' r
   end.
 
-(* ControlStream: value attribute + endless generator yielding it *)
-Inductive cop := CSet (v : Qc) | CNext.
-Fixpoint crun (v : Qc) (ops : list cop) : list Qc :=
+(* ControlStream: value attribute + endless generator yielding it.  The code never inspects the value (no test,
+   no arithmetic, no comparison), so the model is parametric in the type V of values: numbers, None, False, '',
+   containers, streams, callables... (round 3). *)
+Inductive cop {V : Type} := CSet (v : V) | CNext.
+Arguments cop : clear implicits.
+Fixpoint crun {V : Type} (v : V) (ops : list (cop V)) : list V :=
   match ops with
   | [] => []
   | CSet v' :: r => crun v' r
@@ -85,7 +88,7 @@ Fixpoint run2 (ka : bool) (za : Qc) (kb : bool) (zb : Qc) (sa sb : st) (ops : li
 Definition on_side {T} (s : side) (l : list (side * T)) : list T :=
   map snd (filter (fun p => side_eqb (fst p) s) l).
 
-Fixpoint crun2 (va vb : Qc) (ops : list (side * cop)) : list (side * Qc) :=
+Fixpoint crun2 {V : Type} (va vb : V) (ops : list (side * cop V)) : list (side * V) :=
   match ops with
   | [] => []
   | (SideA, CSet v) :: r => crun2 v vb r
